@@ -70,6 +70,13 @@ pub struct HalState {
     /// virtual = physical + this for mmio_phys_to_virt.
     pub mmio_offset: u64,
     pub poison: u8,
+    /// Fill the caller's copy of a device-writable buffer with `posted_fill` while it is shared:
+    /// its contents are indeterminate until the completion is consumed (the device may write it at
+    /// any time), and a driver that reads it earlier must not get the right bytes by luck of
+    /// bouncing. The bytes present at `share` time are preserved in the bounce copy and come back at
+    /// `unshare`, exactly as without the fill.
+    pub poison_posted: bool,
+    pub posted_fill: u8,
     pub live_dma: usize,
     pub live_shares: usize,
     /// live shares by caller (virtual) address -> region index
@@ -93,6 +100,8 @@ impl HalState {
             bounce: true,
             mmio_offset: 0,
             poison: 0xdd,
+            poison_posted: false,
+            posted_fill: 0xc7,
             live_dma: 0,
             live_shares: 0,
             live_by_vaddr: BTreeMap::new(),
@@ -382,6 +391,9 @@ fn share_impl(w: &mut World, buf: NonNull<[u8]>, dir: BufferDirection, ap: bool)
         unsafe { std::ptr::copy_nonoverlapping(vaddr as *const u8, v.as_mut_ptr(), len) };
         let p = v.as_mut_ptr();
         std::mem::forget(v);
+        if h.poison_posted && matches!(dir, BufferDirection::DeviceToDriver) {
+            unsafe { std::ptr::write_bytes(vaddr as *mut u8, h.posted_fill, len) };
+        }
         (p, true)
     } else {
         (vaddr as *mut u8, false)
